@@ -54,31 +54,41 @@ Qed.
 
 (* ---------------------------------------------------------------- messages, calls, histories *)
 
-Lemma do_op_open_flag c md kw st' out :
-  do_op c (md, false) (Open kw) = (st', out) ->
-  (snd st' = true <-> exists doc, out = Started doc).
+(* an open_run on a key that is not open registers the key exactly when a RunStart is emitted *)
+Lemma do_op_open_flag c md opens key kw st' out :
+  key_mem key opens = false ->
+  do_op c (md, opens) (Open key kw) = (st', out) ->
+  ((exists doc, out = Started doc) /\ snd st' = opens ++ [key]) \/
+  ((forall doc, out <> Started doc) /\ snd st' = opens).
 Proof.
-  cbn. destruct (open_run _ md _) as [md' o] eqn:E.
-  destruct o; intros [= <- <-]; cbn; split; try discriminate; eauto;
-    intros [doc H]; discriminate.
+  intros Hk. cbn. rewrite Hk. destruct (open_run _ md _) as [md' o] eqn:E.
+  destruct o; intros [= <- <-]; cbn; try (right; split; [discriminate | reflexivity]).
+  left. eauto.
 Qed.
 
-Lemma do_op_rejecting_validator c md kw sid :
+Lemma do_op_rejecting_validator c md opens key kw sid :
   let r := {| call_kw := c_kw c; open_kw := kw; plan_type := c_type c; plan_name := c_name c |} in
+  key_mem key opens = false ->
   scan_src (c_hooks c) md = Some sid ->
   validator (c_hooks c) (chain_merge (chain r (set k_scan_id sid md))) = false ->
-  do_op c (md, false) (Open kw) = ((set k_scan_id sid md, false), RejectedV).
-Proof. intros r Es Ev. cbn. fold r. now rewrite (open_run_rejected _ _ r sid Es Ev). Qed.
+  do_op c (md, opens) (Open key kw) = ((set k_scan_id sid md, opens), RejectedV).
+Proof. intros r Hk Es Ev. cbn. rewrite Hk. fold r. now rewrite (open_run_rejected _ _ r sid Es Ev). Qed.
+
+(* open_run with a key that is already open: IllegalMessageSequence, nothing changes
+   (in particular no scan_id is consumed) *)
+Lemma do_op_open_twice c md opens key kw :
+  key_mem key opens = true -> do_op c (md, opens) (Open key kw) = ((md, opens), Illegal).
+Proof. intros Hk. cbn. now rewrite Hk. Qed.
 
 Lemma do_op_frame c st o st' out k :
   do_op c st o = (st', out) -> k <> k_scan_id -> lookup k (fst st') = lookup k (fst st).
 Proof.
-  destruct st as [md b]. destruct o as [kw|]; cbn.
-  - destruct b; [intros [= <- _]; reflexivity|].
+  destruct st as [md opens]. destruct o as [key kw|key]; cbn.
+  - destruct (key_mem key opens); [intros [= <- _]; reflexivity|].
     destruct (open_run _ md _) as [md' o] eqn:E. intros E2 Hk.
     assert (fst st' = md') as -> by (destruct o; injection E2 as <- _; reflexivity).
     eapply open_run_frame; eauto.
-  - destruct b; intros [= <- _]; reflexivity.
+  - destruct (key_mem key opens); intros [= <- _]; reflexivity.
 Qed.
 
 Lemma do_ops_frame c ops st st' obs k :
@@ -100,7 +110,7 @@ Lemma do_calls_frame cs md k :
   Forall (fun x : step_obs => lookup k (snd (fst x)) = lookup k md) (concat (snd (do_calls md cs))).
 Proof.
   intros Hk. revert md. induction cs as [|c cs IH]; intros md; cbn; [auto|].
-  unfold do_call. destruct (do_ops c (md, false) (c_ops c)) as [[md1 b1] obs1] eqn:E1.
+  unfold do_call. destruct (do_ops c (md, []) (c_ops c)) as [[md1 b1] obs1] eqn:E1.
   destruct (do_calls md1 cs) as [md2 os] eqn:E2. cbn.
   destruct (do_ops_frame _ _ _ _ _ _ E1 Hk) as [H1 H2]. cbn in H1, H2.
   specialize (IH md1). rewrite E2 in IH. cbn in IH. destruct IH as [H3 H4].
@@ -138,15 +148,15 @@ Lemma do_op_scan c st o st' out s :
   (is_started out = true /\ scan_id_start (fst st') = Some (s + 1)%Z /\ lookup k_scan_id (fst st') = Some (VInt (s + 1))) \/
   (is_started out = false /\ fst st' = fst st).
 Proof.
-  intros Hd E Hs Hr. destruct st as [md b]. cbn in Hs. destruct o as [kw|]; cbn in E.
-  - destruct b; [injection E as <- <-; right; auto|].
+  intros Hd E Hs Hr. destruct st as [md opens]. cbn in Hs. destruct o as [key kw|key]; cbn in E.
+  - destruct (key_mem key opens); [injection E as <- <-; right; auto|].
     unfold open_run in E. rewrite Hd, (default_src_ok _ _ Hs) in E.
     destruct (validator _ _).
     + destruct (normalizer _ _).
       * injection E as <- <-. left. cbn. rewrite scan_id_start_set, lookup_set_same. auto.
       * injection E as <- <-. discriminate.
     + injection E as <- <-. discriminate.
-  - destruct b; injection E as <- <-; right; auto.
+  - destruct (key_mem key opens); injection E as <- <-; right; auto.
 Qed.
 
 Lemma do_ops_scan c ops st st' obs s :
@@ -184,7 +194,7 @@ Proof.
   revert md s. induction cs as [|c cs IH]; intros md s Hd Hs Hr; cbn.
   - split; [reflexivity|]. rewrite Hs. f_equal. lia.
   - cbn in Hr. unfold do_call in *.
-    destruct (do_ops c (md, false) (c_ops c)) as [[md1 b1] obs1] eqn:E1.
+    destruct (do_ops c (md, []) (c_ops c)) as [[md1 b1] obs1] eqn:E1.
     destruct (do_calls md1 cs) as [md2 os] eqn:E2. cbn [fst snd] in *.
     rewrite outcomes_cons in *. rewrite existsb_app in Hr. apply orb_false_iff in Hr as [Hr1 Hr2].
     assert (Hdc : forall md, scan_src (c_hooks c) md = default_src md) by (apply Hd; now left).
@@ -209,7 +219,7 @@ Definition witness_hooks : hooks :=
   {| validator := v_forbid 10%N (VInt 1); normalizer := default_normalizer; scan_src := default_src |}.
 Definition witness_calls : list call :=
   [{| c_hooks := witness_hooks; c_kw := []; c_type := 11%N; c_name := 12%N;
-      c_ops := [Open [(10%N, VInt 1)]; Open []; Close] |}].
+      c_ops := [Open None [(10%N, VInt 1)]; Open None []; Close None] |}].
 
 Lemma a_refuted :
   exists md cs, all_default_src cs /\ finding_C17_a md cs = true /\ ~ scan_ids_consecutive md cs.
